@@ -84,9 +84,9 @@ func VF_C19_L1_ResetFanout() {
 			if disturb == 1 {
 				zzvf.Note("disconnect " + r.cl.c.cid)
 				r.disc = true
+				discMark = len(w.mq.reqs)
 				w.disconnect(r.cl)
 				w.settle()
-				discMark = len(w.mq.reqs)
 			} else {
 				zzvf.Note("unsubscribe test.model on " + r.cl.c.cid)
 				r.issue(vfReqKind{method: "unsubscribe.test.model", verb: "unsubscribe", rid: "test.model", count: 1})
@@ -94,7 +94,8 @@ func VF_C19_L1_ResetFanout() {
 			disturb = 0
 		} else {
 			req := pend[a]
-			outs := vfOutcomes(req.subject, false)
+			// gets may also time out (transport error), accesses grant/deny
+			outs := vfOutcomes(req.subject, strings.HasPrefix(req.subject, "get."))
 			o := outs[zzvf.Choose("outcome", len(outs))]
 			zzvf.Note("service: " + req.subject + " -> " + o.label)
 			runs[0].answer(req, o)
